@@ -312,10 +312,29 @@ func (h *handler) processUnaryRpc(
 	rpc *goatorepo.Rpc,
 ) *goatorepo.Rpc {
 	ctx, cancel, err := contextFromHeaders(clientCtx, rpc.GetHeader())
-	if err != nil {
-		log.Panic().Err(err).Msg("Server: failed to get context from headers")
-	}
 	defer cancel()
+	if err != nil {
+		// Undecodable request metadata is the peer's mistake, not a reason to
+		// bring the process down: fail this call only.
+		log.Warn().Err(err).Msg("Server: failed to get context from headers")
+		errHeader := &goatorepo.RequestHeader{
+			Method:      rpc.Header.Method,
+			Source:      rpc.Header.Destination,
+			Destination: rpc.Header.Source,
+		}
+		if len(rpc.Header.ProxyRecord) > 1 {
+			errHeader.ProxyNext = rpc.Header.ProxyRecord[0 : len(rpc.Header.ProxyRecord)-1]
+		}
+		return &goatorepo.Rpc{
+			Id:     rpc.GetId(),
+			Header: errHeader,
+			Status: &goatorepo.ResponseStatus{
+				Code:    int32(codes.Internal),
+				Message: "malformed request metadata: " + err.Error(),
+			},
+			Trailer: &goatorepo.Trailer{},
+		}
+	}
 
 	// A unary handler must not outlive its connection: when the connection's
 	// context ends (read or write failure, Stop), so does the handler's.
